@@ -650,9 +650,12 @@ def run_path(I, fn, cdef, pc):
             finally:
                 I.pure -= 1
             lo, hi = ast.literal_eval(sp[1]), ast.literal_eval(sp[2])
-            conds = [t == k for k in range(lo, hi)]
+            conds = [t == k for k in range(lo, hi)] + [z3.Or(t < lo, t >= hi)]
             d = I.choice(len(conds), conds)
             I.st.pc.append(conds[d])
+            if d == hi - lo:
+                I.oblige(False, 'cases', 'split range [%d,%d) is exhaustive' % (lo, hi), cdef.name)
+                raise PathEnd()
             I.learn(t, lo + d)
             continue
         if kind == 'cases':
